@@ -9,6 +9,14 @@ def build_and_audit(c, lean_targets, audit_module, scan_files, prefixes=None):
     """returns (ok_build, ok_audit); messages are stored on c"""
     ok_build = c.extract_consts() and c.lake_build(["shuttle_model"] + lean_targets)
     ok_audit = bool(ok_build and audit_module and c.audit(audit_module, prefixes))
+    if ok_build and c.tier == "thorough":
+        # independent re-check of the compiled proof modules by the toolchain's `leanchecker`
+        for mod in lean_targets:
+            rc, out, err, dt = sh(["lake", "env", "leanchecker", mod], cwd=LEAN, timeout=3000)
+            c.cov.setdefault("leanchecker", {})[mod] = "ok" if rc == 0 else f"rc={rc} {(out + err)[-200:]}"
+            if rc != 0:
+                ok_audit = False
+                c.audit_error = f"leanchecker rejects {mod}: {(out + err)[-300:]}"
     hits = c.forbidden_scan(scan_files)
     if hits:
         ok_audit = False
